@@ -559,6 +559,8 @@ def discharge_assert(body, bb, t):
             return False, "addition may overflow (%s)" % ty, 0
         if op == "Sub":
             ok, n = prove(body, bb, b, a, 0)
+            if not ok and const_int(b) == 1 and _len_inside_own_loop(body, bb, a):
+                return True, "len() - 1 inside a loop over the same vector's elements (an element is in hand: len >= 1)", n
             return ok, ("minuend >= subtrahend derivable" if ok else "cannot derive minuend >= subtrahend (usize underflow)"
                         if ty.startswith("u") else "subtraction may overflow (%s)" % ty), n
         if op == "Mul":
@@ -570,6 +572,51 @@ def discharge_assert(body, bb, t):
             return False, "negation may overflow", 0
         return False, "arithmetic may overflow (%s)" % op, 0
     return False, "unknown assert kind %s" % kind, 0
+
+
+def _len_inside_own_loop(body, bb, e):
+    """e is len(V) and bb lies in the body of a loop that iterates V's elements (after the `Some` edge of its next()),
+    V not changed inside that loop"""
+    e = body.expand_vars(strip_sites(e))
+    if not (e[0] == "call" and last_seg(e[1]) == "len" and e[2]):
+        return False
+    vexpr = bounds._peel(e[2][0])
+    v = mir.root_local_expr(vexpr)
+    if v is None:
+        # a single-definition local was expanded to its defining expression (`let chars: Vec<char> = line.chars().collect()`)
+        for l, loc in enumerate(body.locals):
+            if loc["ty"].startswith("std::vec::Vec<") and len(body.defs.get(l, [])) == 1:
+                bi, si = body.defs[l][0]
+                if si != "T" or True:
+                    try:
+                        de = bounds._peel(body.expand_vars(strip_sites(body.def_expr(bi, si))))
+                    except Exception:
+                        continue
+                    if de == vexpr:
+                        v = l
+        if v is None:
+            return False
+    for h, blocks in body.loops().items():
+        if bb not in blocks:
+            continue
+        for x in blocks:
+            t = body.term(x)
+            if t["k"] == "call" and last_seg(body.callee(t)) == "next" and body.succs[x]:
+                it = body.call_args(x)[0]
+                if flow.backward(body, it, lambda z: z[0] in ("var", "param") and z[1] == v, through_containers=False) is None:
+                    continue
+                if flow.backward(body, it, lambda z: z[0] == "call" and last_seg(z[1]) in ("chain", "once", "repeat", "zip"),
+                                 through_containers=False) is not None:
+                    continue
+                some = [tgt for tgt, atom, val in body.switch_edges(body.succs[x][0]) if val == "Some"]
+                if not some or not body.dominates(some[0], bb):
+                    continue
+                muts = [y for y in blocks if body.term(y)["k"] == "call" and last_seg(body.callee(body.term(y))) in (
+                    "clear", "truncate", "pop", "remove", "drain", "retain", "swap_remove", "split_off") and body.call_args(y) and
+                    mir.root_local_expr(bounds._peel(body.expand_vars(strip_sites(body.call_args(y)[0])))) == v]
+                if not muts:
+                    return True
+    return False
 
 
 def _operand_ty(body, op):
